@@ -1,6 +1,7 @@
 package c35
 
 import (
+	"fmt"
 	"sort"
 
 	"verif/harness/hx"
@@ -452,4 +453,95 @@ func fixedScripts(quick bool) []Script {
 		out = append(out, Script{KeySeed: 36, MaxBlk: 20, MaxTx: 60000, Profile: "fixed-staled", Ops: st})
 	}
 	return out
+}
+
+// sourceWindow reads the validator window the consensus services configure
+// (increment.NewIncrementValidator(N) in consensus/vbft/service.go) from the current source.
+func sourceWindow(c *hx.Ctx) int {
+	if v, err := windowArg(c.Repo, "consensus/vbft/service.go", "NewVbftServer"); err == nil {
+		var w int
+		if _, err := fmt.Sscanf(v, "%d", &w); err == nil && w > 0 {
+			return w
+		}
+	}
+	return int(measureDefaultWindow())
+}
+
+// generateLong: a long run of contiguous AddBlock calls (no Clean in between) that slides the
+// validator window past its size by `extra` blocks. Senders recur in the newest block and in
+// earlier ones; before a block is committed a same-nonce variant of one of its transactions is
+// validated (at the previous height) and it reaches AddTxList only after the block (the late
+// delivery race), so the pool holds a stale-nonce transaction that is not on chain and whose
+// verification height lies inside the window.
+func generateLong(c *hx.Ctx, caseNo, window, extra int) {
+	s := Script{KeySeed: c.Rng.Int63(), Profile: "long-window", MaxBlk: window, MaxTx: 60000}
+	r := newRunner(c, s, caseNo)
+	r.dumpEvery = 7
+	g := &cgen{r: r, c: c, used: map[uint64]int{}, profile: "long-window"}
+	addBlock := func(txs []TxRef) bool {
+		h := r.height()
+		r.do(Op{K: "commit", Txs: txs})
+		if r.height() == h {
+			return false
+		}
+		r.ivq, r.poolq = nil, nil
+		r.do(Op{K: "ivadd", H: h + 1}) // contiguous: every persisted block reaches the validator at once
+		return true
+	}
+	addBlock([]TxRef{{S: -2, Tag: 0}, {S: -2, Tag: 1}, {S: -2, Tag: 2}})
+	r.do(Op{K: "poolclean", H: 1, Txs: refsOf(r.chain[1])})
+	total := window + extra + g.rnd(3)
+	var uncleaned []uint32
+	for blk := 2; blk <= total; blk++ {
+		var txs []TxRef
+		var stale []TxRef
+		for sd := 0; sd < nSenders; sd++ {
+			if !g.p(70) {
+				continue
+			}
+			n := r.specNext[sd]
+			k := 1 + g.rnd(2)
+			for j := 0; j < k; j++ {
+				txs = append(txs, TxRef{S: sd, N: uint32(n) + uint32(j), P: g.cheapPrice(sd), Tag: g.freshTag()})
+			}
+			if g.p(60) {
+				// same (sender, nonce) as a transaction of the coming block, different hash
+				stale = append(stale, TxRef{S: sd, N: uint32(n) + uint32(g.rnd(k)), P: g.cheapPrice(sd), Tag: g.freshTag()})
+			}
+		}
+		if g.p(40) {
+			g.ordN++
+			txs = append(txs, TxRef{S: -1, N: uint32(g.ordN), P: g.price(100 + g.ordN), Tag: g.freshTag()})
+		}
+		for _, t := range stale { // validated before the newest block ...
+			t := t
+			r.do(Op{K: "val", Tx: &t})
+		}
+		if !addBlock(txs) {
+			continue
+		}
+		uncleaned = append(uncleaned, uint32(blk))
+		for len(r.pend) > 0 { // ... added to the pool after it
+			r.do(Op{K: "deliver", I: 0})
+		}
+		// the next transactions of some senders arrive normally
+		for sd := 0; sd < nSenders; sd++ {
+			if g.p(35) {
+				g.submit(TxRef{S: sd, N: uint32(r.specNext[sd]) + uint32(g.rnd(2)), P: g.cheapPrice(sd), Tag: g.freshTag()}, 100)
+			}
+		}
+		if blk > window || g.p(30) {
+			r.do(Op{K: "propose"})
+		}
+		if g.p(75) { // the pool's own clean-up of persisted blocks lags behind
+			for _, h := range uncleaned {
+				r.do(Op{K: "poolclean", H: h, Txs: refsOf(r.chain[h])})
+			}
+			uncleaned = nil
+		}
+	}
+	r.last = true
+	r.do(Op{K: "propose"})
+	r.c.Count(fmt.Sprintf("long-window:blocks-past-window-%d", extra))
+	r.finish("generated:long-window")
 }
